@@ -224,6 +224,43 @@ func redirectGuard(run *kit.Run) {
 			}
 		}
 	}
+	// every path over the alphabet {/ . a} up to 8 bytes (rooted), against wildcard routes of one to four segments with
+	// and without a trailing slash: whichever route the slash-adjusted path would match, no redirect for unclean paths
+	g, err := fox.New(fox.WithRedirectTrailingSlash(true))
+	if err != nil {
+		run.Inconclusive("fox.New: %v", err)
+		return
+	}
+	for _, p := range []string{"/{a}/", "/{a}/{b}/", "/{a}/{b}/{c}/", "/{a}/{b}/{c}/{d}/", "/.a/{b}", "/a/{b}", "/{a}/{b}/{c}/{d}/{e}"} {
+		g.MustHandle("GET", p, h)
+	}
+	const al = "/.a"
+	maxLen := run.Pick(8, 10)
+	buf := []byte{'/'}
+	var rec func()
+	rec = func() {
+		p := string(buf)
+		if !strings.Contains(p, "//") || true {
+			w := &redirW{h: http.Header{}}
+			g.ServeHTTP(w, &http.Request{Method: "GET", URL: &url.URL{Path: p}, Header: http.Header{}, Proto: "HTTP/1.1", ProtoMajor: 1, ProtoMinor: 1})
+			n++
+			if w.status >= 300 && w.status < 400 {
+				run.Count("redirects_observed", 1)
+				if clean := ref.CleanPath(p); p != clean {
+					run.Violate(fmt.Sprintf("redirect-unclean|%q", p), fmt.Sprintf("a trailing-slash redirect (status %d, Location %q) was issued for the request path %q, which is not in clean form (%q)", w.status, w.h.Get("Location"), p, clean), map[string]string{"path": p})
+				}
+			}
+		}
+		if len(buf) == maxLen {
+			return
+		}
+		for i := 0; i < len(al); i++ {
+			buf = append(buf, al[i])
+			rec()
+			buf = buf[:len(buf)-1]
+		}
+	}
+	rec()
 	run.Count("redirect_guard_requests", int64(n))
 }
 
